@@ -57,6 +57,24 @@ func c11Main(r *run.Runner) {
 		pr := gen.Print(corpus[item])
 		c11Source(w, pr.Layout(pr.Uniform(" ")).Source, r.Thorough())
 	})
+	// large programs (walk order with deep stacks) in blank-separated and blank-free layout
+	scale := scalePrograms()
+	r.Sweep("scale", int64(len(scale)), func(w *run.Worker, item int64) {
+		pr := gen.Print(scale[item])
+		small := len(pr.Lexemes) <= 120
+		for _, sep := range []string{" ", ""} {
+			src := pr.Layout(pr.Uniform(sep)).Source
+			if small {
+				c11Source(w, src, false)
+			} else {
+				c11Unpruned(w, src)
+			}
+		}
+	})
+	r.Sweep("corpus-tight", int64(len(corpus)), func(w *run.Worker, item int64) {
+		pr := gen.Print(corpus[item])
+		c11Source(w, pr.Layout(pr.Uniform("")).Source, false)
+	})
 	shapes := gen.NewShapes(exprKinds(), N-1)
 	for n := 0; n <= N; n++ {
 		items := shapes.Items(n)
@@ -204,4 +222,36 @@ func parentType(ref []refNode, i int) string {
 		return "root"
 	}
 	return astx.TypeName(ref[ref[i].parent].n)
+}
+
+// c11Unpruned checks only the walk without pruning (large programs).
+func c11Unpruned(w *run.Worker, src string) {
+	w.Begin("walk-vs-reflection:unpruned", src)
+	var stmts []parser.Statement
+	var err error
+	if !w.Try(src, func() { stmts, err = parser.Parse(src) }) || err != nil {
+		return
+	}
+	for _, st := range stmts {
+		ref := refTraversal(st)
+		seen := map[parser.Node]int{}
+		ok := w.Try(src, func() {
+			parser.Walk(st, func(n parser.Node) bool {
+				if !astx.IsNilNode(n) {
+					seen[n]++
+				}
+				return true
+			})
+		})
+		if !ok {
+			return
+		}
+		w.Nontrivial()
+		for _, rn := range ref {
+			if isIdentOrExpr(rn.n) && seen[rn.n] != 1 {
+				w.Fail("walk:visit-count:"+astx.TypeName(rn.n), src, fmt.Sprintf("%s %v visited %d times in a program of %d nodes", astx.TypeName(rn.n), rn.n.Span(), seen[rn.n], len(ref)), nil)
+				return
+			}
+		}
+	}
 }
